@@ -102,6 +102,8 @@ static inline uint32_t verif_ctlz64(uint64_t x) { uint32_t c = 0; for (int i = 6
 static inline uint32_t verif_cttz32(uint32_t x) { uint32_t c = 0; for (int i = 0; i < 32 && !((x >> i) & 1); ++i) ++c; return c; }
 static inline uint32_t verif_cttz64(uint64_t x) { uint32_t c = 0; for (int i = 0; i < 64 && !((x >> i) & 1); ++i) ++c; return c; }
 
+static inline uint32_t verif_approx_eq(double a, double b, double scale) { double s = scale < 0 ? -scale : scale; if (!(s > 1)) s = 1; double d = a - b; if (d < 0) d = -d; return (a == b) || d <= 1e-7 * s; }
+static inline uint32_t verif_close(double a, double b, double scale) { double s = scale < 0 ? -scale : scale; if (!(s > 1)) s = 1; double d = a - b; if (d < 0) d = -d; return (a == b) || d <= 1e-7 * s; }
 static inline uint64_t verif_d2u(double d) { uint64_t b; memcpy(&b, &d, 8); return b; }
 #ifdef VERIF_TRACE_RECORD
 #define VERIF_TR(k, v) printf("TR %d %llx\n", k, (unsigned long long)(v))
